@@ -152,6 +152,17 @@ def make_env(name, shift=0):
         env = TradingEnv(BoxPortfolio(cs, -1.0, 1.5), state=State(2, window=3, stride=2), transmitter=tr, initial_cash=1000.0)
         actions = [np.array([0.5]), np.array([-0.25])]
         bad = np.array([np.nan])
+    elif name == "winmarkov":
+        # a windowed State under markov reset (nothing is replayed at reset, the window starts padded); the two folds SHARE their
+        # boundary timestep, so the event that ended an episode on the first fold is the first one of an episode on the second
+        G = _days(datetime(2021, 3, 1) + timedelta(days=28 * shift), 7)
+        cs = [ETF("A")]
+        tr = Transmitter(list(G), folds={"training-set": [G[0], G[3]], "f2": [G[3], G[-1]]}, markov_reset=True)
+        tr.add_events(bar_events(G, cs, base=50.0, spread=0.0, step=3.0))
+        tr.add_events([EventNewObservation(g, {"x": 0.1 * i, "y": -0.2 * i}) for i, g in enumerate(G)])
+        env = TradingEnv(BoxPortfolio(cs, -1.0, 1.5), state=State(2, window=3), transmitter=tr, initial_cash=1000.0)
+        actions = [np.array([0.5]), np.array([-0.25])]
+        bad = np.array([np.nan])
     elif name == "defaults":
         # the convenience entry point: a price table, a plain list of contracts, every other option left at its default
         # (the default state / reward / fee objects of the signature are then shared by all environments built this way)
@@ -419,7 +430,7 @@ def all_schedules(n):
 def run(tier, **kw):
     rep = Report("C10", tier, LEVEL)
     depth = 3 if tier == "quick" else 5
-    configs = ["etf2", "fees", "chain", "window", "disc", "holey", "defaults", "warm"]
+    configs = ["etf2", "fees", "chain", "window", "disc", "holey", "defaults", "warm", "winmarkov"]
     hists = [h for d in range(depth + 1) for h in itertools.product(range(len(CALLS)), repeat=d)]
     units = []
     for name in configs:
